@@ -32,7 +32,8 @@ REAL = ['py4hw.logic.simulation.Waveform (clock, getDict, get_wavedrom, clear)',
 STUB = ['stimulus', 'cancelling listener']
 ASSUMPTIONS = ['WaveDrom text format as produced by get_wavedrom: framing x, "." = repeat, "2" + label for multi-bit wires']
 PROBES = ['zero_cycles', 'duplicate_entry', 'port_alias', 'repeat_run', 'value_change', 'clear_between', 'wide_label', 'stop_cancel', 'sim_restart',
-          'extra_clock_domain', 'recorder_attached_late', 'intermediate_rendering']
+          'extra_clock_domain', 'recorder_attached_late', 'intermediate_rendering',
+          'format_reassigned_after_rendering', 'bool_poked', 'same_short_name_two_wires']
 
 
 def gen(rs, tier, index):
@@ -73,6 +74,15 @@ def gen(rs, tier, index):
                 watch.append({'t': 'port', 'node': nd['id'], 'dir': 'out', 'k': rng.randrange(len(nd['ow']))})
         elif watch:
             watch.append(dict(rng.choice(watch)))      # duplicate entry
+    # two watched wires of different parents with one short name (an internal wire named like a primary input)
+    nr = rs.get('naming')
+    internal = [r for r in refs if r[0] == 'n' and r not in d['outputs']]
+    if internal and d['inputs'] and nr.random() < 0.25:
+        s_ = nr.choice(internal)
+        tgt = nr.choice(d['inputs'])['name']
+        d['names'] = {s_: tgt}
+        watch.append({'t': 'wire', 'ref': s_})
+        watch.append({'t': 'wire', 'ref': tgt})
     sr = rs.get('stimulus')
     fr = rs.get('faults')
     segs = []
@@ -98,10 +108,17 @@ def gen(rs, tier, index):
         segs.append({'steps': steps})
     # late_attach: the simulator exists and has run before the recorder is instantiated (then getSimulator() again)
     return {'design': d, 'watch': watch, 'segs': segs, 'short': rng.random() < 0.5,
-            'late_attach': fr.choice([None, None, None, 0, 2, 5]), 'mid_render': fr.random() < 0.4}
+            'late_attach': fr.choice([None, None, None, 0, 2, 5]), 'mid_render': fr.random() < 0.4,
+            # the display format of the multi-bit lanes is re-assigned (wvf.format[i]) before the renderings of later segments
+            'formats': [fr.choice(['{:X}', '{:X}', '{:d}', '{:x}', '{:o}', '{:08X}']) for _ in range(4)] if fr.random() < 0.4 else None,
+            # 1-bit inputs are poked with Python bools (True / False) instead of 1 / 0
+            'bool_inputs': fr.random() < 0.3}
 
 
-def decode_wavedrom(sig, width, fmt_hex=True):
+FMT_BASE = {'{:X}': 16, '{:x}': 16, '{:08X}': 16, '{:d}': 10, '{:o}': 8}
+
+
+def decode_wavedrom(sig, width, base=16):
     wave = sig['wave']
     data = list(sig.get('data', []))
     if len(wave) < 2 or wave[0] != 'x' or wave[-1] != 'x':
@@ -123,24 +140,24 @@ def decode_wavedrom(sig, width, fmt_hex=True):
                 raise ValueError('data char %r' % ch)
             if not data:
                 raise ValueError('label missing')
-            last = int(data.pop(0), 16)
+            last = int(data.pop(0), base)
         out.append(last)
     if data:
         raise ValueError('unused labels %r' % data)
     return out
 
 
-def check_rendering(wd, entries, keys, shadow, cycles, where, gi, st):
+def check_rendering(wd, entries, keys, shadow, cycles, where, gi, st, fmts=None):
     sigs = wd['signal']
     if len(sigs) != len(entries) + 1:
         raise Violation('render', 'render:signal-count', gi, '%s: %d signals for %d entries' % (where, len(sigs), len(entries)))
     if len(sigs[0]['wave']) != cycles + 2:
         raise Violation('render', 'render:clk-span', gi, '%s: clk wave %r' % (where, sigs[0]['wave']))
-    for e, k, sg in zip(entries, keys, sigs[1:]):
+    for li, (e, k, sg) in enumerate(zip(entries, keys, sigs[1:])):
         if len(sg['wave']) != cycles + 2:
             raise Violation('render', 'render:span', gi, '%s: wave of %s spans %d chars for %d cycles' % (where, sg['name'], len(sg['wave']), cycles))
         try:
-            dec = decode_wavedrom(sg, k.getWidth())
+            dec = decode_wavedrom(sg, k.getWidth(), FMT_BASE[fmts[li]] if fmts else 16)
         except ValueError as ex:
             raise Violation('render', 'render:undecodable', gi, '%s: %s: %s' % (where, sg['name'], ex))
         if dec != shadow[id(k)]:
@@ -170,6 +187,8 @@ def run(scn, log, st):
             st.probe('port_alias')
     if len({id(k) for k in keys}) < len(keys):
         st.probe('duplicate_entry')
+    if len({k.name for k in keys}) < len({id(k) for k in keys}):
+        st.probe('same_short_name_two_wires')
     # map real wires to description refs for the shadow
     ref_of = {id(w): r for r, w in b.wires.items()}
     inner = {}
@@ -207,6 +226,8 @@ def run(scn, log, st):
     wvf = py4hw.Waveform(b.hw, 'wvf', list(entries))
     with quiet():
         sim = b.hw.getSimulator()
+    def cur_fmts():
+        return [(wvf.format[li] if k.getWidth() > 1 else '{:X}') for li, k in enumerate(keys)]
     kept = []           # (where, rendering, snapshot of it): a rendering is a document, later recordings leave it alone
     stopper = Stopper(sim)
     sim.addListener(stopper)
@@ -219,6 +240,12 @@ def run(scn, log, st):
         if gi > 0:
             wvf.clear()
             st.probe('clear_between')
+            if scn.get('formats'):
+                # a rendering has been produced already; the display format of the lanes is changed now
+                for li, k in enumerate(keys):
+                    if k.getWidth() > 1:
+                        wvf.format[li] = scn['formats'][(li + gi) % 4]
+                st.probe('format_reassigned_after_rendering')
         shadow = {id(k): [] for k in uniq}
         cycles = 0
         for si, step in enumerate(seg['steps'], 1):
@@ -230,6 +257,11 @@ def run(scn, log, st):
                 st.probe('sim_restart')
             seams.EdgeShuffler(sim, rng, st)
             b.set_inputs(step['vec'])
+            if scn.get('bool_inputs'):
+                for i_, v_ in zip(d['inputs'], step['vec']):
+                    if i_['w'] == 1:
+                        b.wires[i_['name']].put(bool(v_))
+                st.probe('bool_poked')
             twin.set_inputs(step['vec'])
             twin.settle()
             parts = list(step['parts'])
@@ -266,7 +298,7 @@ def run(scn, log, st):
             if scn.get('mid_render') and si == (len(seg['steps']) + 1) // 2 and si < len(seg['steps']):
                 with quiet():
                     mid = wvf.get_wavedrom(shortNames=scn['short'])
-                check_rendering(mid, entries, keys, shadow, cycles, 'segment %d after %d cycles (intermediate rendering)' % (gi, cycles), gi, st)
+                check_rendering(mid, entries, keys, shadow, cycles, 'segment %d after %d cycles (intermediate rendering)' % (gi, cycles), gi, st, cur_fmts())
                 kept.append(('segment %d after %d cycles' % (gi, cycles), mid, copy.deepcopy(mid)))
                 st.probe('intermediate_rendering')
         # ---- oracles for this segment
@@ -293,7 +325,7 @@ def run(scn, log, st):
             st.probe('zero_cycles')
         with quiet():
             wd = wvf.get_wavedrom(shortNames=scn['short'])
-        check_rendering(wd, entries, keys, shadow, cycles, where, gi, st)
+        check_rendering(wd, entries, keys, shadow, cycles, where, gi, st, cur_fmts())
         for kw, doc, snap in kept:
             if doc != snap:
                 raise Violation('render', 'render:earlier-rendering-changed', gi, 'the rendering taken at %s changed when %s was rendered' % (kw, where))
